@@ -3,7 +3,7 @@
 # checks given in EXTRA below), record results in seeded/RESULTS.tsv and in each meta.json.
 # /repo must be clean; every patch is reverted after its run.
 cd /verif
-declare -A EXTRA=( [C01-b]="C03" [C02-a]="C01 C09" [C08-a]="C05" [C10-a]="C02" [C10-c]="C03" [C10-d]="C06" )
+declare -A EXTRA=( [C01-b]="C03" [C02-a]="C01 C09" [C08-a]="C05" [C10-a]="C02" [C10-c]="C03" [C10-d]="C06" [C02-f]="C09" [C10-f]="C04" )
 : > seeded/RESULTS.tsv
 for D in seeded/C*/; do
   SID=$(basename $D)
